@@ -25,6 +25,19 @@ ASSUME \A b \in BlkNums : \A e \in BOOLEAN : PrintT(<<"KV", ToJson([blk |-> b, e
 BitFlips(b) == UNION {{[b EXCEPT ![i] = IF (b[i] \div k) % 2 = 1 THEN b[i] - k ELSE b[i] + k] : k \in {1, 2, 4, 8, 16, 32, 64, 128}} : i \in 1..Len(b)}
 ASSUME \A c \in BitFlips(EncodeBlock(BlockHdr(H0, 1, 1), Pattern(1))) : ~DecodeBlock(c).ok
 
+(* the length byte is not covered by the checksum: a block whose data happens to contain, after k bytes, the       *)
+(* checksum of its own first k bytes turns into a "valid" shorter block when the length byte is lowered to 10 + k --  *)
+(* unless the announced length is compared with the number of bytes that are there.  Such blocks, length byte        *)
+(* lowered, are rejected by the reference (and printed for the real decoder).                                       *)
+CraftData(n, k) == LET base == Pattern(n)
+                       c == Sum(Hdr(BlockHdr(H0, n, 1)) \o SubSeq(base, 1, k))
+                   IN [i \in 1..n |-> IF i = k + 1 THEN c \div 256 ELSE IF i = k + 2 THEN c % 256 ELSE base[i]]
+Crafted(n, k) == [EncodeBlock(BlockHdr(H0, n, 1), CraftData(n, k)) EXCEPT ![1] = 10 + k]
+CraftKs == {0, 1, 30, 57, 58}
+ASSUME \A k \in CraftKs : /\ DecodeBlock(SubSeq(Crafted(60, k), 1, 13 + k)).ok          \* the trap is armed: the prefix is a valid block
+                          /\ ~DecodeBlock(Crafted(60, k)).ok
+ASSUME \A k \in CraftKs : PrintT(<<"CV", ToJson([k |-> k, block |-> Crafted(60, k)])>>)
+
 ASSUME \A h \in Heads : PrintT(<<"HV", ToJson([h |-> h, block |-> Split(h, Pattern(5))[1]])>>)
 ASSUME \A n \in Lens : PrintT(<<"LV", ToJson([n |-> n, blocks |-> Split(H0, Pattern(n))])>>)
 ASSUME \A k \in {3, 100, 32766, 32767} : \A d \in {0, 1, 2} :
